@@ -27,7 +27,7 @@ ASSUMPTIONS = ["confidence in [0,1] is a property of the xgboost model output (n
 PREDICT = "synrbl.confidence_prediction.ConfidencePredictor.predict"
 
 
-def check(ctx) -> None:
+def check(ctx, only_h1: bool = False, h1_rule: str = "C13-H1") -> None:
     pl = Pipeline(ctx)
     prog = ctx.prog
     f = prog.func(PREDICT)
@@ -35,11 +35,15 @@ def check(ctx) -> None:
     ctx.require(len(stages) == 1, "ConfidencePredictor.predict is called %d times from __run_pipeline" % len(stages))
     st = stages[0]
     inst = st.inst
-    ctx.rule("C13-H1", "row stays solved exactly when confidence >= threshold", 2)
-    ctx.rule("C13-H2", "threshold flows only into the comparison and the issue text", 1)
-    ctx.rule("C13-H3", "all row stores of predict target rows with solved_by == MCS method", 3)
-    ctx.rule("C13-H4", "demotion stores solved := False and an issue naming the threshold; keeping stores nothing", 2)
-    ctx.rule("C13-H5", "confidence_threshold is consumed once; benchmark uses the same >=", 3)
+    ctx.rule(h1_rule, "row stays solved exactly when confidence >= threshold (a threshold of 0 demotes nothing)", 1)
+    if not only_h1:
+        ctx.rule("C13-H2", "threshold flows only into the comparison and the issue text", 1)
+    if not only_h1:
+        ctx.rule("C13-H3", "all row stores of predict target rows with solved_by == MCS method", 3)
+    if not only_h1:
+        ctx.rule("C13-H4", "demotion stores solved := False and an issue naming the threshold; keeping stores nothing", 2)
+    if not only_h1:
+        ctx.rule("C13-H5", "confidence_threshold is consumed once; benchmark uses the same >=", 3)
     ctx.require("threshold" in f.params, "predict lost its threshold parameter")
     thr = "threshold"
     solved, issue, conf = pl.solved_col.text, pl.issue_col.text, texts(ctx.balancer.get("__confidence_col"))
@@ -47,7 +51,19 @@ def check(ctx) -> None:
     ctx.require(conf_store, "predict no longer stores the confidence column")
     conf_names = set()
     for s in conf_store:
-        conf_names |= names_in(s.value)
+        # the stored value with representation-only wrappers stripped
+        v = s.value
+        while True:
+            if isinstance(v, ast.Call) and isinstance(v.func, ast.Attribute) and v.func.attr == "item" and not v.args:
+                v = v.func.value
+            elif isinstance(v, ast.Call) and isinstance(v.func, ast.Name) and v.func.id == "float" and len(v.args) == 1:
+                v = v.args[0]
+            else:
+                break
+        if isinstance(v, ast.Name):
+            conf_names.add(v.id)
+        else:
+            ctx.finding(h1_rule, "confidence_prediction.ConfidencePredictor.predict:stored-value", s.where(), "the stored confidence %s is a transformation of the value that is compared with the threshold; the reported confidence and the verdict can disagree" % unparse(s.value)[:50])
     demote = [s for s in st.stores if solved in s.keytexts and s.func is f]
     ctx.require(demote, "predict no longer demotes rows (store to the solved column vanished)")
     cname = "confidence_prediction.ConfidencePredictor.predict"
@@ -58,6 +74,8 @@ def check(ctx) -> None:
         for c, p in d.raw_guards:
             for cc, pp in split_cond(c, p):
                 nc = normal_compare(cc, pp)
+                if nc is None and isinstance(cc, ast.Name):
+                    nc = _vector_compare(f, cc.id, pp, conf_names)
                 if nc is None:
                     continue
                 l, op, r = nc
@@ -74,11 +92,11 @@ def check(ctx) -> None:
                     if o == "<" and names_in(a) & conf_names and isinstance(a, ast.Name):
                         cmp_ok = True
         okv = isinstance(d.value, ast.Constant) and d.value.value is False
-        ctx.instance("C13-H1", "demotion guard: %s" % seen, d.where(), ok=cmp_ok and okv)
+        ctx.instance(h1_rule, "demotion guard: %s" % seen, d.where(), ok=cmp_ok and okv)
         if not cmp_ok:
-            ctx.finding("C13-H1", cname + ":boundary", d.where(), "demotion is not guarded by `confidence < threshold` on the stored confidence (normalised guards: %s)" % seen)
+            ctx.finding(h1_rule, cname + ":boundary", d.where(), "demotion is not guarded by `confidence < threshold` on the stored confidence (normalised guards: %s)" % seen)
         if not okv:
-            ctx.finding("C13-H1", cname + ":demotion-value", d.where(), "solved column receives %s in predict" % unparse(d.value))
+            ctx.finding(h1_rule, cname + ":demotion-value", d.where(), "solved column receives %s in predict" % unparse(d.value))
     # counter on the keeping branch
     cfg = CFG(f.node)
     for n in own_nodes(f.node):
@@ -92,9 +110,11 @@ def check(ctx) -> None:
                         l, op, r = nc
                         o = op if (isinstance(r, ast.Name) and r.id == thr) else {"<": ">", ">": "<", "<=": ">=", ">=": "<="}.get(op, op)
                         keep = o == ">="
-            ctx.instance("C13-H1", "counter %s += on the keeping branch (>=)" % n.target.id, f.loc(n), ok=keep)
+            ctx.instance(h1_rule, "counter %s += on the keeping branch (>=)" % n.target.id, f.loc(n), ok=keep)
             if not keep:
-                ctx.finding("C13-H1", cname + ":counter-branch", f.loc(n), "the confident counter is not incremented exactly under `confidence >= threshold`")
+                ctx.finding(h1_rule, cname + ":counter-branch", f.loc(n), "the confident counter is not incremented exactly under `confidence >= threshold`")
+    if only_h1:
+        return
     # ---------------------------------------------------------------- H2
     uses = [n for n in own_nodes(f.node) if isinstance(n, ast.Name) and n.id == thr and isinstance(n.ctx, ast.Load)]
     for u in uses:
@@ -198,6 +218,34 @@ def check(ctx) -> None:
                 if not ok:
                     ctx.finding("C13-H5", "SynCmd.cmd_benchmark.run:boundary", bf.loc(n), "benchmark compares the confidence with %s instead of >=" % type(n.ops[0]).__name__)
     ctx.require(n_cmp >= 1, "benchmark no longer compares entry['confidence'] with min_confidence")
+
+
+def _vector_compare(f, flag: str, polarity: bool, conf_names):
+    """``flag`` is the zip partner of an array ``A = <conf array> <op> threshold``:
+    return the element-wise comparison (conf element, op, threshold) with the
+    polarity folded in."""
+    zp = zip_partner(f, flag)
+    if zp is None:
+        return None
+    loop, pos, args = zp
+    a = args[pos]
+    if not isinstance(a, ast.Name):
+        return None
+    defs = assignments_to(f, a.id)
+    if len(defs) != 1 or not isinstance(defs[0][1], ast.Compare):
+        return None
+    nc = normal_compare(defs[0][1], polarity)
+    if nc is None:
+        return None
+    l, op, r = nc
+    # map the array operand to its element in the same zip
+    def elem(e):
+        if isinstance(e, ast.Name) and isinstance(loop.target, ast.Tuple):
+            for t, arg in zip(loop.target.elts, args):
+                if isinstance(arg, ast.Name) and arg.id == e.id and isinstance(t, ast.Name):
+                    return ast.Name(id=t.id, ctx=ast.Load())
+        return e
+    return elem(l), op, elem(r)
 
 
 def _hash_helpers(ctx) -> Set[str]:
